@@ -89,7 +89,13 @@ func VerifC19Shared() {
 	// token: authority with a fact and a check, one block
 	authority := gBlock{facts: []gAtom{{name: "p", c: 1}, {name: "q", c: 2}, {name: "r", c: 3}},
 		checks: [][]gRule{{{body: []gAtom{{name: "p", isVar: true}}}}}}
-	blocks := []gBlock{{facts: []gAtom{{name: "u", c: 10}}}}
+	// the block reuses an authority symbol: the token's symbol table then holds 3 symbols in a backing
+	// array of 4 (spare capacity), or 4 of 4 when the block brings its own
+	bname := "p"
+	if vChoose("block-own-symbol", 2) == 1 {
+		bname = "u"
+	}
+	blocks := []gBlock{{facts: []gAtom{{name: bname, c: 10}}}}
 	g := gBuildToken(authority, blocks)
 	tok := g.tok
 	if vChoose("reloaded", 2) == 1 {
@@ -100,6 +106,10 @@ func VerifC19Shared() {
 	}
 	sh := &c19Shared{tok: tok, rootPub: g.rootPub}
 	sh.fact = Fact{Predicate{Name: "p", IDs: []Term{Integer(1)}}}
+	if vChoose("lookup-unknown-symbols", 2) == 1 {
+		// a fact whose symbols the token has never seen
+		sh.fact = Fact{Predicate{Name: "zz", IDs: []Term{String("yy")}}}
+	}
 	sh.rule = Rule{Head: Predicate{Name: "out", IDs: []Term{Variable("v")}}, Body: []Predicate{{Name: "p", IDs: []Term{Variable("v")}}}}
 	sh.check = Check{Queries: []Rule{{Head: Predicate{Name: "query"}, Body: []Predicate{{Name: "p", IDs: []Term{Variable("v")}}}}}}
 	n := len(c19OpNames)
